@@ -536,6 +536,17 @@ func ruleEscaperComplex(r *Run, p *Prog, rule string, g *ssa.Function, textIdx i
 		r.Fail(rule, name+"/iter-paths", p.Pos(g.Pos()), "cannot enumerate the iteration paths of the escaper loop")
 		return
 	}
+	// iterations on which a flag set earlier in the iteration would have to be both true and false
+	// (`invalid := false … if invalid {`) are not iterations of the program
+	{
+		var feasible []iterPath
+		for _, pa := range paths {
+			if !(Path{Blocks: append(append([]*ssa.BasicBlock{}, pa.blocks...), hdr)}).InfeasibleByEval() {
+				feasible = append(feasible, pa)
+			}
+		}
+		paths = feasible
+	}
 	nEsc, nSafe, nRune := 0, 0, 0
 	type iterInfo struct {
 		pa   iterPath
@@ -608,7 +619,7 @@ func ruleEscaperComplex(r *Run, p *Prog, rule string, g *ssa.Function, textIdx i
 					if !isBackslashAppend(in) {
 						continue
 					}
-					if why := escapeDenotes(in.(*ssa.Call), cs, isB, isR); why != "" && badEsc == "" {
+					if why := escapeDenotes(p, in.(*ssa.Call), cs, isB, isR); why != "" && badEsc == "" {
 						badEsc, escPos = why, in.Pos()
 					}
 				}
@@ -730,7 +741,7 @@ func strIndex(v ssa.Value) (tab, idx ssa.Value, ok bool) {
 	return nil, nil, false
 }
 
-func escapeDenotes(c *ssa.Call, cs []Cmp, isB, isR func(ssa.Value) bool) string {
+func escapeDenotes(p *Prog, c *ssa.Call, cs []Cmp, isB, isR func(ssa.Value) bool) string {
 	// value the escaped unit is pinned to on this path
 	pinned := map[ssa.Value]int64{}
 	var pinB, pinR *int64
@@ -831,6 +842,51 @@ func escapeDenotes(c *ssa.Call, cs []Cmp, isB, isR func(ssa.Value) bool) string 
 				continue
 			}
 			break
+		}
+		// '\\', T[b] with T a package-level table of escape letters: every entry is the letter of its
+		// own index (or the index itself for quote, backslash, slash); a zero entry ("no short escape")
+		// must have been excluded on this path
+		if ld, ok := v.(*ssa.UnOp); ok && ld.Op == token.MUL {
+			if ia, ok := ld.X.(*ssa.IndexAddr); ok {
+				idx := ia.Index
+				for {
+					if cv, ok := idx.(*ssa.Convert); ok {
+						idx = cv.X
+						continue
+					}
+					break
+				}
+				if g, isG := ia.X.(*ssa.Global); isG && isB(idx) && p != nil {
+					vals, _, undecided := tableContentsOf(p, g)
+					if undecided != "" {
+						return "the table of escape letters cannot be evaluated: " + undecided
+					}
+					zeroExcluded := false
+					for _, cm := range cs {
+						if n, ok := constInt(cm.Y); ok && n == 0 && cm.Op == token.NEQ {
+							if l2, ok := cm.X.(*ssa.UnOp); ok && l2.Op == token.MUL {
+								if ia2, ok := l2.X.(*ssa.IndexAddr); ok && ia2.X == ia.X {
+									zeroExcluded = true
+								}
+							}
+						}
+					}
+					for b, letter := range vals {
+						switch {
+						case letter == 0:
+							if !zeroExcluded {
+								return "the table has no escape letter for some bytes and the path does not exclude them"
+							}
+						case letter == int64(b) && (b == '"' || b == '\\' || b == '/'):
+						default:
+							if want, isShort := shortOf[letter]; !isShort || want != int64(b) {
+								return fmt.Sprintf("the table maps byte 0x%02x to the escape letter %q", b, rune(letter))
+							}
+						}
+					}
+					return ""
+				}
+			}
 		}
 		if isB(v) && pinB != nil && (*pinB == '"' || *pinB == '\\' || *pinB == '/') {
 			return ""
